@@ -581,7 +581,7 @@ func (r *CheckRun) report(aggs []*AggObl, freports []FuncReport, vacuity []strin
 			exit = 2
 		}
 	}
-	if total == 0 && len(knownPrinted) == 0 {
+	if total == 0 && len(knownPrinted) == 0 && violations == 0 {
 		lines = append(lines, "ENGINE-ERROR: no obligations generated for "+r.Prop)
 		exit = 2
 	}
